@@ -65,6 +65,14 @@ func (u *Unsupported) Error() string { return "unsupported: " + u.Msg }
 // PruneCase: the harness declared this shape assignment infeasible (not part of the space).
 type PruneCase struct{}
 
+// HookFire: the stall hook fired before the Occ-th execution of the access at Where, under G.
+type HookFire struct {
+	Atomic bool
+	Where  string
+	Occ    int
+	G      smt.Term
+}
+
 type ShapeRequest struct {
 	Name   string
 	Lo, Hi int
@@ -113,33 +121,41 @@ type Engine struct {
 	PruneCalls int
 	PruneHits  int
 
-	globalInit  []*Obj
-	inInit      bool
-	initTrying  bool
-	atomicCells map[string]bool
-	chanFinal   map[*Obj]smt.Term
-	globalVals  map[*Obj]interface{}
-	strObjs     map[string]*Obj
-	Hints       []smt.Term
-	divCache    map[string][2]smt.Term
-	errT        types.Type
-	clockObj    *Obj
-	shapeSeq    map[string]int
-	writers     map[*Obj]map[int]bool
-	Sched       []smt.Term // schedule / memory-consistency constraints of the composition
-	Finished    smt.Term
-	Rounds      int
-	GoPolicy    string // "" (unsupported) | "skip"
-	TickerTicks int
-	Stats       ComposeStats
-	ThreadsDone []*Thread
+	globalInit   []*Obj
+	inInit       bool
+	initTrying   bool
+	atomicCells  map[string]bool
+	chanFinal    map[*Obj]smt.Term
+	globalVals   map[*Obj]interface{}
+	strObjs      map[string]*Obj
+	Hints        []smt.Term
+	divCache     map[string][2]smt.Term
+	errT         types.Type
+	clockObj     *Obj
+	shapeSeq     map[string]int
+	writers      map[*Obj]map[int]bool
+	Sched        []smt.Term // schedule / memory-consistency constraints of the composition
+	Finished     smt.Term
+	Rounds       int
+	hookObj      *Obj // region whose accesses are counted (stall hook, sequential mode)
+	hookCnt      *Obj // counter object (in the heap so that it forks/merges with states)
+	hookFn       FuncV
+	hookBusy     bool
+	inAtomicOp   bool
+	InfeasibleOK bool // the harness declared that this shape case may be infeasible (its witnesses unreachable)
+	hookOcc      map[string]int
+	HookFires    []HookFire
+	GoPolicy     string // "" (unsupported) | "skip"
+	TickerTicks  int
+	Stats        ComposeStats
+	ThreadsDone  []*Thread
 }
 
 func NewEngine(prog *ssa.Program, pkg *ssa.Package, opts Opts) *Engine {
 	e := &Engine{C: smt.NewCtx(), Prog: prog, Pkg: pkg, Opts: opts, Fset: prog.Fset,
 		globals: map[*ssa.Global]*Obj{}, fninfo: map[*ssa.Function]*fnInfo{},
 		Encoded: map[*ssa.Function]int{}, StubsUsed: map[string]int{}, AlignHint: map[*Obj]int{},
-		Shape: map[string]int{}, Ghost: map[string]*Obj{}, curThread: -1, shapeSeq: map[string]int{}, FoldedIDs: map[string]int{}, TickerTicks: 2, chanFinal: map[*Obj]smt.Term{}, globalVals: map[*Obj]interface{}{}}
+		Shape: map[string]int{}, Ghost: map[string]*Obj{}, curThread: -1, shapeSeq: map[string]int{}, hookOcc: map[string]int{}, FoldedIDs: map[string]int{}, TickerTicks: 2, chanFinal: map[*Obj]smt.Term{}, globalVals: map[*Obj]interface{}{}}
 	if e.Opts.DefaultUnroll == 0 {
 		e.Opts.DefaultUnroll = 64
 	}
